@@ -35,6 +35,9 @@ SUBS.append(Sub("foreign-image-scripts", run, kind="enum", enumerate=lambda tier
                 rule="well-formed files as other writers leave them (later unused slots carrying 0 / 64 / -1 / 2^31-1 / mixed values instead of the end of the data; blocks padded to "
                      "64 bytes) x table lengths {4,6,14} x 0..2 live blocks x scripts with two or more adds (api, setters, across a reopen, after removes); finite, enumerated",
                 nontrivial_required=False))
+SUBS.append(Sub("hole-table-removals", run, kind="enum", enumerate=lambda tier: container.hole_table_cases(), shards=(8, 16),
+                rule="well-formed files with unused slots IN FRONT OF live blocks (2..4 live blocks, 0..2 slots in front of each, 0/1/5 spare slots behind) x every order of "
+                     "removing up to three of them with remove_block: the blocks that stay keep their bytes and entry fields; finite, enumerated", nontrivial_required=False))
 SUBS.append(Sub("histories-other-zone", run, kind="machine", machine=machine, budget=(60, 1500), shards=(2, 8), steps=(25, 50), tz=container.OTHER_ZONE,
                 rule="the same histories with the process in a zone that is not UTC and has daylight saving time (POSIX TZ CET-1CEST): stored dates are instants, "
                      "also those in the hour that is repeated when summer time ends"))
